@@ -220,8 +220,7 @@ def run(check, tier):
         "literal (untouched) or has insignificant indentation (continuation, blank, comment-only: only its stripped content is compared)",
         "both halves of the real pipeline run: adjust_whitespace (lexer side) then PythonPrinter.write_indented_block/_flush_adjusted_lines "
         "at target indentation levels 0..2")
-    check.not_claimed("AST re-emission of argument defaults and filter arguments (_ast_util.SourceGenerator) - not decidable by this technique",
-                      "scope analysis (FindIdentifiers) and strict_undefined", "blocks outside the skeletons")
+    check.not_claimed("blocks outside the skeletons", "expression / statement forms outside the grammars of the re-emission and name-analysis parts")
     M = {"quick": (0, 1), "thorough": (0, 1, 2)}[tier]
     I = {"quick": (0, 2), "thorough": (0, 1, 2)}[tier]
     jobs = []
@@ -231,6 +230,9 @@ def run(check, tier):
                 jobs.append(("C19-%s-%d-%d" % (name, mlen, ind), h_block(name, mlen, ind), on_block(name),
                              "skeleton %s, margin %d symbolic blanks, target indent %d" % (name, mlen, ind),
                              dict(skeleton=SKELETONS[name].__repr__(), margin=mlen, indent=ind), ("asserted",)))
+    import os
+    if os.environ.get("C19_ONLY"):          # development aid
+        jobs = [j for j in jobs if j[0].startswith(os.environ["C19_ONLY"])]
     for j in jobs:
         driver.register(j[0], j[1], j[2])
     cands = []
@@ -239,7 +241,10 @@ def run(check, tier):
         check.section(title, st, acc, bounds, tags_required=req)
         cands.extend(acc.candidates)
     check.confirm(cands, make_replay, classify, max_confirm=80)
-    from . import C19b
+    from . import C19b, C19c
     C19b.run(check, tier)
+    cc = []
+    C19c.run(check, tier, cc)
+    check.confirm(cc, C19c.make_replay, C19c.classify, max_confirm=30)
     driver.close_pool()
     realproc.shutdown()
